@@ -276,6 +276,7 @@ def run(run: common.Run):
     run.compare_lines(cases, lines, impls)
     multi_source_cli(run, tmp, pair, src, ref, fresh_cli)
     tilde_paths(run, tmp, pair)
+    refused_calls_leave_nothing(run, tmp, pair)
 
 
 def sig_px(path):
@@ -291,10 +292,49 @@ def sig_px(path):
 def tree_state(root):
     out = {}
     for p in sorted(pathlib.Path(root).rglob('*')):
+        if p.is_dir():
+            out[str(p.relative_to(root)) + '/'] = ('dir',)      # directories count: a call must not leave new ones behind either
         if p.is_file():
             st = p.stat()
             out[str(p.relative_to(root))] = (hashlib.sha1(p.read_bytes()).hexdigest(), st.st_mtime_ns, st.st_size)
     return out
+
+
+def refused_calls_leave_nothing(run, tmp, pair):
+    """
+    A call that is refused (one requested output exists, no overwrite) while its other output is requested in a directory that
+    does not exist yet: the refusal leaves the file system exactly as it was - no file, and no directory, appears.
+    """
+    from homonim import RasterFuse
+    from homonim.enums import Model
+    for k, (existing, as_str) in enumerate((('param', True), ('corr', False), ('param', False), ('corr', True))):
+        root = tmp / f'refused{k}'
+        root.mkdir()
+        (root / 'have.tif').write_bytes(b'existing output')
+        corr = root / 'have.tif' if existing == 'corr' else root / 'new_a' / 'sub' / 'corr.tif'
+        par = root / 'have.tif' if existing == 'param' else root / 'new_b' / 'sub' / 'corr_PARAM.tif'
+        before = tree_state(root)
+        case = dict(i=660_000 + k, op='refused call, other output in a new directory', existing=existing, as_str=as_str)
+        outcome = 'returned'
+        try:
+            with warnings.catch_warnings():
+                warnings.simplefilter('ignore')
+                with RasterFuse(pair.src_path, pair.ref_path) as rf:
+                    rf.process(str(corr) if as_str else corr, Model.gain, (1, 1), param_filename=str(par) if as_str else par, overwrite=False,
+                               block_config=dict(threads=1))
+        except FileExistsError:
+            outcome = 'exists'
+        except Exception as ex:
+            outcome = f'raised {type(ex).__name__}'
+        run.evaluations += 1
+        run.hist[f'refused calls with a new directory: {outcome.split()[0]}'] += 1
+        run.nontrivial.add(('refused', k))
+        after = tree_state(root)
+        if outcome == 'returned':
+            run.fail(case, 'the call succeeded over an existing output without overwrite', signature=dict(kind='clobbered'))
+        elif after != before:
+            diff = sorted(set(after) ^ set(before)) + [n for n in before if n in after and after[n] != before[n]]
+            run.fail(case, f'the call was refused ({outcome}) but left the file system changed: {diff}', signature=dict(kind='clobber-on-refusal'))
 
 
 def tilde_paths(run, tmp, pair):
